@@ -88,7 +88,7 @@ func c06SchedScenario() (*scen, *types.WorkObject, error) {
 	if err := s.runWord("zz"); err != nil {
 		return nil, nil, err
 	}
-	blk, err := s.n.Build(core.VBuildOpts{Order: 2, Fill: true})
+	blk, err := s.n.Build(s.opts(core.VBuildOpts{Order: 2, Fill: true}))
 	return s, blk, err
 }
 
